@@ -15,14 +15,13 @@ filter object and is applied to the path itself (or its resolved / absolute / st
 
 from __future__ import annotations
 
-import ast
 from dataclasses import dataclass, field
 
 from core.loader import AnalysisError, FuncInfo, Repo
 from core.report import Result
 
 from .c04_norm import leaves, loc, rename_atoms, restrict, show_loc, strip_abs, unbox
-from .c04_symx import FALSE, TRUE, Event, Formula, SymX, Term, Trace, atom, atoms_of, equivalent, f_and, f_not, f_or, implies, show, show_formula, simplify, substitute, subterms
+from .c04_symx import TRUE, Event, Formula, SymX, Term, Trace, atom, atoms_of, equivalent, f_and, f_not, f_or, implies, show, show_formula, simplify, substitute, subterms
 from .common import stmt_of, types_of, where
 
 PARSER = "pytestarch.eval_structure_generation.file_import.parser"
